@@ -64,6 +64,7 @@ type Explorer struct {
 	ReachModels   map[string]*Violation
 	PathWitnesses []*Violation
 	WitnessMax, WitnessStride int
+	Deadline      time.Time
 	Checks, Trivial, Discharged int
 	Blocks, Steps int64
 	NSat, NUnsat, NUnknown int
@@ -130,6 +131,11 @@ func (ex *Explorer) take() ([]uint64, bool) {
 	ex.mu.Lock()
 	defer ex.mu.Unlock()
 	for {
+		if !ex.Deadline.IsZero() && time.Now().After(ex.Deadline) && !ex.stopped {
+			ex.stopped = true
+			ex.Inconclusive = append(ex.Inconclusive, fmt.Sprintf("time budget exhausted with %d paths pending", len(ex.work)))
+			ex.cond.Broadcast()
+		}
 		if ex.stopped {
 			return nil, false
 		}
@@ -255,6 +261,7 @@ func (in *Interp) runPath(prefix []uint64) {
 		}()
 		in.ensureInit(ex.Entry.Pkg)
 		in.callFunction(ex.Entry, nil, nil, nil)
+		in.confirmPC()
 	}()
 	if end == nil {
 		end = &pathEnd{kind: "done"}
@@ -375,7 +382,11 @@ func (in *Interp) Branch(c *Term) bool {
 	}
 	nc := in.tb.Not(c)
 	rT := in.sol.CheckWith(c)
+	if rT == Sat {
+		p.unchecked = false
+	}
 	if rT == Unsat {
+		in.confirmPC()
 		p.trace = append(p.trace, 0)
 		in.addPC(nc)
 		return false
@@ -465,9 +476,22 @@ func (in *Interp) assume(c *Term) {
 		return
 	}
 	in.addPC(c)
-	if r := in.sol.Check(); r == Unsat {
-		panic(&pathEnd{kind: "infeasible", reason: "assumption unsatisfiable"})
+	in.path.unchecked = true
+}
+
+// confirmPC makes sure the path condition is satisfiable after lazily added
+// assumptions; an unsatisfiable one ends the path as infeasible.
+func (in *Interp) confirmPC() {
+	if !in.path.unchecked || in.sol == nil {
+		return
 	}
+	switch in.sol.Check() {
+	case Unsat:
+		panic(&pathEnd{kind: "infeasible", reason: "assumptions unsatisfiable"})
+	case Unknown:
+		panic(&pathEnd{kind: "inconclusive", reason: "solver unknown while confirming assumptions @ " + in.where()})
+	}
+	in.path.unchecked = false
 }
 
 // check discharges an obligation.
@@ -500,6 +524,7 @@ func (in *Interp) check(c *Term, msg string) {
 	r := in.sol.CheckWith(in.tb.Not(c))
 	switch r {
 	case Unsat:
+		in.confirmPC()
 		in.ex.mu.Lock()
 		in.ex.Discharged++
 		in.ex.mu.Unlock()
@@ -516,6 +541,7 @@ func (in *Interp) check(c *Term, msg string) {
 
 // reach records a reachability witness (with a model, once per tag).
 func (in *Interp) reach(tag string) {
+	in.confirmPC()
 	in.path.reach[tag] = true
 	ex := in.ex
 	ex.mu.Lock()
